@@ -3,6 +3,7 @@ package midicat
 import (
 	"fmt"
 	"io"
+	"strconv"
 )
 
 func read(rd io.Reader) (byte, error) {
@@ -46,12 +47,13 @@ func convert(b []byte) (out []byte, err error) {
 }
 
 func convertDelta(b []byte) (deltams int32, err error) {
-	_, err = fmt.Sscanf(string(b), "%d", &deltams)
+	// the whole field must be a decimal number (fmt.Sscanf would accept "1x3" as 1)
+	v, err := strconv.ParseInt(string(b), 10, 32)
 	if err != nil {
 		return -1, err
 	}
 
-	return deltams, nil
+	return int32(v), nil
 
 }
 
@@ -61,23 +63,21 @@ func Read(rd io.Reader) (out []byte, deltams int32, err error) {
 	var deltaRead bool
 	var deltaBf []byte
 
+	// always consume the whole line, so that a malformed line cannot leak into the next call
 	for {
 		b, errRd := read(rd)
+
 		if errRd != nil {
 			return nil, -1, errRd
 		}
 
-		if b == ' ' {
-			deltams, err = convertDelta(deltaBf)
-			if err != nil {
-				return
-			}
-			deltaRead = true
-			continue
+		if b == limit {
+			break
 		}
 
-		if b == limit {
-			return out, deltams, err
+		if b == ' ' && !deltaRead {
+			deltaRead = true
+			continue
 		}
 
 		if deltaRead {
@@ -86,6 +86,17 @@ func Read(rd io.Reader) (out []byte, deltams int32, err error) {
 			deltaBf = append(deltaBf, b)
 		}
 	}
+
+	if !deltaRead {
+		return nil, -1, fmt.Errorf("missing separator in line %q", string(deltaBf))
+	}
+
+	deltams, err = convertDelta(deltaBf)
+	if err != nil {
+		return nil, -1, err
+	}
+
+	return out, deltams, nil
 }
 
 func ReadAndConvert(rd io.Reader) (out []byte, deltams int32, err error) {
